@@ -171,6 +171,25 @@ func serverSession(tag byte, n int) func(l logger) {
 	}
 }
 
+// pooledWriterSession: a connection that only borrows a writer of the common size class, sends
+// two messages through it and gives it back - whatever writer the pool hands out (one another
+// connection has just returned, possibly) is this connection's own while it holds it.
+func pooledWriterSession(tag byte) func(l logger) {
+	return func(l logger) {
+		d := newDst(l)
+		w := wsutil.GetWriter(d, ws.StateServerSide, ws.OpBinary, 128)
+		data := fill(300, tag)
+		w.Write(data[:100])
+		w.Write(data[100:])
+		err := w.Flush()
+		w.ResetOp(ws.OpText)
+		w.Write([]byte("second message"))
+		err2 := w.Flush()
+		l.Logf("borrowed-writer err=%v/%v %s", err, err2, framesLog(d.Bytes()))
+		wsutil.PutWriter(w)
+	}
+}
+
 // customServerSession: an upgrader whose zero-copy callbacks hand back values that point into
 // the request as it lies in the read buffer (allowed: "valid until Upgrade returns"), and whose
 // OnBeforeUpgrade hook takes its time (another connection gets served meanwhile).
@@ -642,6 +661,8 @@ func sessions() map[string]session {
 	add("S6", textSession(6))
 	add("S7", cancelledDialSession(8))
 	add("S8", customServerSession('m'))
+	add("S9", pooledWriterSession(9))
+	add("S9b", pooledWriterSession(10))
 	add("S8b", customServerSession('n'))
 	add("S6b", textSession(7))
 	return m
@@ -870,7 +891,7 @@ func main() {
 			t.Outcome("deterministic")
 			t.Note("each session alone: same log on the non-recycling pool twice and on the poisoning LIFO pool")
 		})
-		mixes2 := [][]string{{"S2s", "S2t"}, {"S4a", "S4b"}, {"S1", "S2"}, {"S1", "S1b"}, {"S2", "S2b"}, {"S1", "S3"}, {"S2", "S3"}, {"S3", "S3b"}, {"S1L", "S2L"}, {"S1L", "S1"}, {"S3L", "S2"}, {"S3L", "S3"}, {"S3", "S5"}, {"S5", "S5b"}, {"S6", "S6b"}, {"S1", "S6"}, {"S7", "S2"}, {"S8", "S8b"}, {"S8", "S1"}}
+		mixes2 := [][]string{{"S2s", "S2t"}, {"S4a", "S4b"}, {"S1", "S2"}, {"S1", "S1b"}, {"S2", "S2b"}, {"S1", "S3"}, {"S2", "S3"}, {"S3", "S3b"}, {"S1L", "S2L"}, {"S1L", "S1"}, {"S3L", "S2"}, {"S3L", "S3"}, {"S3", "S5"}, {"S5", "S5b"}, {"S6", "S6b"}, {"S1", "S6"}, {"S7", "S2"}, {"S8", "S8b"}, {"S8", "S1"}, {"S3", "S9"}, {"S9", "S9b"}}
 		mixes3 := [][]string{{"S1", "S2", "S3"}, {"S1", "S1b", "S2"}, {"S2", "S2b", "S3"}}
 		r.Part("E1-two-sessions-preemption-bounded", func(t *explore.T) {
 			b := t.Pick(2, 3)
